@@ -32,6 +32,43 @@ QUICK_N = {"clipclip": 170, "cliprelu": 70, "reluclip": 90, "relurelu": 6, "minm
            "dynscatter": 60, "slicesplit": 90, "ccos": 40}
 
 
+# (family/kind/outcome) combinations every untruncated run must hit: each modelled rule both firing and refusing, and the
+# `raise` paths of the rules that are known to raise on valid hosts.
+REQUIRED_BRANCHES = [
+    "clipclip/-/fire", "clipclip/-/nofire", "clipclip/-/raise", "cliprelu/-/fire", "cliprelu/-/nofire", "reluclip/-/fire", "reluclip/-/nofire",
+    "relurelu/-/fire",
+    "minmax/minMin/fire", "minmax/maxMax/fire", "minmax/maxMin/fire", "minmax/minMax/fire", "minmax/minMax/nofire", "minmax/maxMin/nofire",
+    "unit/-/fire", "unit/-/nofire", "dropout/-/fire", "dropout/-/nofire",
+    "cast/noop/fire", "cast/noop/nofire", "cast/castcast/fire", "cast/castcast/nofire",
+    "perm/noop/fire", "perm/noop/nofire", "perm/tt/fire", "axes/unsq/fire", "axes/unsq/nofire", "axes/sq/fire", "axes/sq/nofire",
+    "reshape/flatten/fire", "reshape/flatten/nofire", "reshape/rr/fire", "reshape/rr/nofire", "reshape/expand/fire", "reshape/expand/nofire",
+    "reshape/mat/fire", "reshape/mat/nofire",
+    "slice/-/fire", "slice/-/nofire", "scatter/-/fire", "scatter/-/nofire", "gemm/-/fire", "gemm/-/nofire", "pad/-/fire", "pad/-/nofire",
+    "normpad/-/fire", "normpad/-/nofire", "bias/-/fire", "bias/-/nofire", "bn/-/fire", "bn/-/nofire", "expandbin/-/fire", "expandbin/-/nofire",
+    "matmul/mm1/fire", "matmul/mm1/nofire", "matmul/mm2/fire", "matmul/gemm/fire", "matmul/gemm/nofire",
+    "hardswish/sig/fire", "hardswish/swish/fire", "hardswish/hs2/fire", "hardswish/sig/nofire", "hardswish/hs2/nofire",
+    "convaffine/ca/fire", "convaffine/ac/fire", "convaffine/ca/nofire", "convaffine/ac/nofire",
+    "dynscatter/-/fire", "dynscatter/-/nofire", "slicesplit/-/fire", "slicesplit/-/nofire", "ccos/-/fire", "misc/layernorm/fire",
+]
+
+
+def condition_token_diff() -> dict:
+    """rule key -> (recorded tokens, current tokens) for every condition function whose decision tokens differ from the
+    snapshot the models were transcribed from (readable companion of theorem `conditions_as_modelled`)."""
+    snap_f = core.VERIF / "harness" / "c05_cond_tokens.json"
+    cur_f = core.VERIF / "harness" / "c05_cond_tokens.current.json"
+    if not (snap_f.exists() and cur_f.exists()):
+        return {}
+    snap, cur = json.loads(snap_f.read_text()), json.loads(cur_f.read_text())
+    out = {}
+    for k in sorted(set(snap) | set(cur)):
+        if k.startswith("fusion."):
+            continue
+        if snap.get(k) != cur.get(k):
+            out[k] = (" ".join(snap.get(k) or ["<absent>"]), " ".join(cur.get(k) or ["<absent>"]))
+    return out
+
+
 def families():
     return {f.name: f for f in FAM.all_families() + FAM2.more_families()}
 
@@ -137,6 +174,7 @@ def run_cases(run, drv, fams, cases, stats, np_rng, results):
         rec["verdict"], rec["text"] = verdict, text
         stats[f"{fam.name}:cases"] += 1
         stats[f"{fam.name}:{rec['impl'].split()[0]}"] += 1
+        stats[f"branch|{fam.name}/{c.get('kind', '-')}/{rec['impl'].split()[0]}"] += 1
         if rec["oracle"]:
             stats[f"{fam.name}:oracle_{rec['oracle']}"] += 1
         if rec["hyp"] is False:
@@ -159,6 +197,8 @@ def main(run: core.Run) -> None:
     run.coverage["rule_table"] = {"rows": len(table["rows"]), "default": len(table["default"]), "exported": len(table["exported"]),
                                   "regenerated_changed": table["changed"]}
     audit = run.prove(PROP_MODULES)
+    cond_changed = condition_token_diff()
+    run.coverage["condition_functions_changed"] = sorted(cond_changed)
     drv = core.Driver("C05")
     fams = families()
     stats: Counter = Counter()
@@ -195,8 +235,13 @@ def main(run: core.Run) -> None:
     for f in fams.values():
         cases += f.corpus()
     seen = set()
+    def touched(f):
+        keys = getattr(f, "rule_keys", ())
+        return any(any(c == k or c.startswith(k) for k in keys) for c in cond_changed)
     for name, f in fams.items():
         n = int(QUICK_N.get(name, 60) * (0.85 if run.tier == "quick" else scale))
+        if run.tier == "quick" and touched(f):
+            n *= 3          # a changed condition function: look harder at that family before reporting
         tries = 0
         got = 0
         while got < n and tries < 6 * n:
@@ -283,9 +328,15 @@ def main(run: core.Run) -> None:
                            "others": len(ties) - 1},
                           f"correspondence broken: {r['line']} :: {r['text']}; no input found on which the rewritten model differs", no_input=True)
     if not audit["ok"]:
-        run.violation({"broken": "proof obligations of OV.Props.C05 (incl. rule-table coverage)", "problems": audit["problems"],
+        extra = ""
+        if cond_changed:
+            k0 = sorted(cond_changed)[0]
+            extra = (f"; condition function(s) changed: {sorted(cond_changed)[:6]} — e.g. {k0}: recorded `{cond_changed[k0][0][:300]}` "
+                     f"now `{cond_changed[k0][1][:300]}`")
+        run.violation({"broken": "proof obligations of OV.Props.C05 (incl. rule-table coverage and condition-function table)",
+                       "problems": audit["problems"], "condition_functions_changed": {k: list(v) for k, v in cond_changed.items()},
                        "log": audit["build_log"][-1500:]},
-                      "Lean proof obligations for C05 do not check: " + "; ".join(audit["problems"][:3]), no_input=True)
+                      "Lean proof obligations for C05 do not check: " + "; ".join(audit["problems"][:3]) + extra, no_input=True)
 
     # ---- evidence
     fired = [r for r in results if r["impl"].startswith("fire")]
@@ -308,8 +359,19 @@ def main(run: core.Run) -> None:
         explanation="rule set enumeration is exhaustive (translator); parameters per rule are seeded random over the listed spaces",
         fired_but_original_not_runnable=inv,
     )
+    run.coverage["branches"] = {k.split("|", 1)[1]: v for k, v in sorted(stats.items()) if k.startswith("branch|")}
+    truncated = bool(stats.get("truncated_after"))
+    run.coverage["truncated_after"] = stats.get("truncated_after")
+    missing = []
     for name in fams:
         if stats[f"{name}:cases"] and not stats[f"{name}:fire"]:
-            raise core.Infra(f"generator degenerated: family {name} never fired")
+            missing.append(f"{name}: never fired")
+    if not truncated and not run.replay_path:
+        for req in REQUIRED_BRANCHES:
+            if not stats.get("branch|" + req):
+                missing.append(f"{req}: 0 cases")
+    run.coverage["required_branches_missing"] = missing
+    if missing:
+        raise core.Infra("generator degenerated, required coverage counters are zero: " + "; ".join(missing[:8]))
     if fired and inv > 0.3 * len(fired):
         raise core.Infra("generator degenerated: >30% of fired hosts are not runnable")
